@@ -16,7 +16,7 @@ pub static DEF: PropDef = PropDef {
 recreated_zlib_chunks through instrumented Read/Write objects. (i) fragmentation: generated per-call read sizes \
 (always-1, powers of two +-1, generated cycles; never Ok(0) before EOF) x generated partial-write acceptance patterns: \
 output must equal F. (ii) one injected error (Other, BrokenPipe, WouldBlock, UnexpectedEof, WriteZero, with short / long ASCII / long multi-byte UTF-8 message payloads; never Interrupted, \
-which std retries by contract) at a source offset or destination offset, or a sink answering Ok(0): for containers \
+which std retries by contract) at a source offset or destination offset, or a sink answering Ok(0); every other fault is transient (delivered once, after which the object accepts calls again): for containers \
 <= 4 KiB EVERY source offset 0..|E| and EVERY destination offset 0..|F| is enumerated, larger ones get chunk boundaries \
 +-2 plus 64 generated offsets. If the fault object reports that it fired, the call must return Err without panicking and \
 the bytes the sink accepted must be a prefix of F; if it did not fire, the output must equal F. \
@@ -59,6 +59,8 @@ struct Src<'a> {
     call: usize,
     fault: Option<(usize, ErrorKind)>,
     fired: bool,
+    /// transient fault: the error is returned once, later calls proceed normally
+    transient: bool,
 }
 
 impl<'a> Read for Src<'a> {
@@ -67,7 +69,7 @@ impl<'a> Read for Src<'a> {
             return Ok(0);
         }
         if let Some((off, kind)) = self.fault {
-            if self.pos >= off {
+            if self.pos >= off && !(self.transient && self.fired) {
                 self.fired = true;
                 return Err(std::io::Error::new(kind, fault_message(off)));
             }
@@ -77,7 +79,9 @@ impl<'a> Read for Src<'a> {
             n = n.min(self.sizes[self.call % self.sizes.len()].max(1));
         }
         if let Some((off, _)) = self.fault {
-            n = n.min(off - self.pos);
+            if !(self.transient && self.fired) {
+                n = n.min(off - self.pos);
+            }
         }
         self.call += 1;
         buf[..n].copy_from_slice(&self.data[self.pos..self.pos + n]);
@@ -93,6 +97,8 @@ struct Dst<'a> {
     /// (offset, Some(kind)) = error; (offset, None) = Ok(0)
     fault: Option<(usize, Option<ErrorKind>)>,
     fired: bool,
+    /// transient fault: the error is returned once, later writes are accepted again
+    transient: bool,
 }
 
 impl<'a> Write for Dst<'a> {
@@ -101,7 +107,7 @@ impl<'a> Write for Dst<'a> {
             return Ok(0);
         }
         if let Some((off, kind)) = self.fault {
-            if self.accepted.len() >= off {
+            if self.accepted.len() >= off && !(self.transient && self.fired) {
                 self.fired = true;
                 return match kind {
                     Some(k) => Err(std::io::Error::new(k, fault_message(off))),
@@ -114,7 +120,9 @@ impl<'a> Write for Dst<'a> {
             n = n.min(self.sizes[self.call % self.sizes.len()].max(1));
         }
         if let Some((off, _)) = self.fault {
-            n = n.min(off - self.accepted.len());
+            if !(self.transient && self.fired) {
+                n = n.min(off - self.accepted.len());
+            }
         }
         self.call += 1;
         self.accepted.extend_from_slice(&buf[..n]);
@@ -128,7 +136,7 @@ impl<'a> Write for Dst<'a> {
             return Ok(0);
         }
         if let Some((off, kind)) = self.fault {
-            if self.accepted.len() >= off {
+            if self.accepted.len() >= off && !(self.transient && self.fired) {
                 self.fired = true;
                 return match kind {
                     Some(k) => Err(std::io::Error::new(k, fault_message(off))),
@@ -141,7 +149,9 @@ impl<'a> Write for Dst<'a> {
             n = n.min(self.sizes[self.call % self.sizes.len()].max(1));
         }
         if let Some((off, _)) = self.fault {
-            n = n.min(off - self.accepted.len());
+            if !(self.transient && self.fired) {
+                n = n.min(off - self.accepted.len());
+            }
         }
         self.call += 1;
         let mut left = n;
@@ -166,10 +176,12 @@ pub struct Plan {
     pub wsizes: Vec<usize>,
     /// ("src"|"dst", offset, kind index 0..5, or 5 = Ok(0) for dst)
     pub fault: Option<(bool, usize, usize)>,
+    /// the fault is delivered once; afterwards the object behaves normally again
+    pub transient: bool,
 }
 
 fn plan_json(p: &Plan) -> Value {
-    json!({"rsizes": p.rsizes, "wsizes": p.wsizes,
+    json!({"rsizes": p.rsizes, "wsizes": p.wsizes, "transient": p.transient,
            "fault": p.fault.map(|(s, o, k)| json!({"side": if s {"src"} else {"dst"}, "offset": o, "kind": k}))})
 }
 
@@ -195,6 +207,7 @@ fn plan_from_json(v: &Value) -> Plan {
         rsizes: arr("rsizes"),
         wsizes: arr("wsizes"),
         fault,
+        transient: v.get("transient").and_then(|t| t.as_bool()).unwrap_or(false),
     }
 }
 
@@ -208,6 +221,7 @@ pub fn run_plan(e: &[u8], f: &[u8], plan: &Plan, ctx: &mut Ctx) -> Result<(), Fa
         call: 0,
         fault: None,
         fired: false,
+        transient: plan.transient,
     };
     let mut dst = Dst {
         accepted: Vec::new(),
@@ -215,15 +229,17 @@ pub fn run_plan(e: &[u8], f: &[u8], plan: &Plan, ctx: &mut Ctx) -> Result<(), Fa
         call: 0,
         fault: None,
         fired: false,
+        transient: plan.transient,
     };
     let mut site = "fragmented".to_string();
     if let Some((is_src, off, kind)) = plan.fault {
         if is_src {
             src.fault = Some((off, KINDS[kind % 5]));
-            site = format!("src-fault:{:?}", KINDS[kind % 5]);
+            site = format!("src-fault{}:{:?}", if plan.transient { "(transient)" } else { "" }, KINDS[kind % 5]);
         } else {
             dst.fault = Some((off, if kind >= 5 { None } else { Some(KINDS[kind]) }));
-            site = if kind >= 5 { "dst-Ok(0)".to_string() } else { format!("dst-fault:{:?}", KINDS[kind]) };
+            let t = if plan.transient { "(transient)" } else { "" };
+            site = if kind >= 5 { format!("dst-Ok(0){}", t) } else { format!("dst-fault{}:{:?}", t, KINDS[kind]) };
         }
     }
     let r = guard(|| preflate_rs::recreated_zlib_chunks(&mut src, &mut dst).map_err(|e| err_info(&e)));
@@ -329,6 +345,7 @@ fn eval_case(case: &Case, dna: &mut Dna, ctx: &mut Ctx) -> Result<(), (Failure, 
             rsizes: gen_sizes(dna),
             wsizes: gen_sizes(dna),
             fault: None,
+            transient: false,
         };
         hash_acc = hash_acc.rotate_left(7) ^ fnv64(plan_json(&plan).to_string().as_bytes());
         run_plan(e, f, &plan, ctx).map_err(|fl| (fl, mk(&plan)))?;
@@ -386,6 +403,7 @@ fn eval_case(case: &Case, dna: &mut Dna, ctx: &mut Ctx) -> Result<(), (Failure, 
             rsizes: rs.clone(),
             wsizes: ws.clone(),
             fault: Some((true, o, kind_rot)),
+            transient: (o + kind_rot) % 2 == 1,
         };
         run_plan(e, f, &plan, ctx).map_err(|fl| (fl, mk(&plan)))?;
     }
@@ -395,6 +413,7 @@ fn eval_case(case: &Case, dna: &mut Dna, ctx: &mut Ctx) -> Result<(), (Failure, 
             rsizes: rs.clone(),
             wsizes: ws.clone(),
             fault: Some((false, o, kind_rot)),
+            transient: (o + kind_rot) % 2 == 1,
         };
         run_plan(e, f, &plan, ctx).map_err(|fl| (fl, mk(&plan)))?;
     }
